@@ -108,6 +108,13 @@ pub struct RunSpec {
     /// like to delta's scan of the process table
     #[serde(default)]
     pub parent_cmdline: Option<Vec<String>>,
+    /// run delta in a pid namespace of its own (`unshare -fp --mount-proc`) with this arrangement of
+    /// neighbours: pid 1 a shell (delta's parent), pid 2 a process whose command line is
+    /// `git ... show HEAD:src/sample.rs` (the producer, NOT an ancestor of delta), pid 3 an unrelated
+    /// sleeper, pid 4 a helper that is still alive ("helper-alive") or has already exited and left a
+    /// hole in the pid space ("helper-gone"), pid 5 delta
+    #[serde(default)]
+    pub pidns: Option<String>,
 }
 
 #[derive(Clone, Debug, Default)]
@@ -359,6 +366,28 @@ pub fn run(env: &Env, spec: &RunSpec, dir: &Path, keep: bool) -> std::io::Result
         }
     }
     let mut cmd = match &spec.parent_cmdline {
+        None if spec.pidns.is_some() => {
+            fs::create_dir_all(d("parent"))?;
+            let git = d("parent").join("git");
+            fs::copy("/bin/sh", &git)?;
+            let quote = |a: &str| format!("'{}'", a.replace('\'', "'\\''"));
+            let mut delta_cmd = quote(&env.delta_bin.display().to_string());
+            for a in &spec.args {
+                delta_cmd.push(' ');
+                delta_cmd.push_str(&quote(&subst(a)));
+            }
+            let helper = if spec.pidns.as_deref() == Some("helper-gone") { "/bin/true" } else { "sleep 5 >/dev/null 2>&1 &" };
+            let script = format!(
+                "{git} -c 'sleep 5; exit 0' show HEAD:src/sample.rs >/dev/null 2>&1 </dev/null &\nsleep 5 >/dev/null 2>&1 </dev/null &\n{helper}\n{delta}\nst=$?\nkill %1 %2 %3 2>/dev/null\nexit $st\n",
+                git = quote(&git.display().to_string()),
+                helper = helper,
+                delta = delta_cmd
+            );
+            fs::write(d("cmd.sh"), script)?;
+            let mut c = Command::new("unshare");
+            c.args(["-fp", "--mount-proc", "/bin/sh"]).arg(d("cmd.sh"));
+            c
+        }
         None => {
             let mut c = Command::new(&env.delta_bin);
             c.args(spec.args.iter().map(|a| subst(a)));
